@@ -776,7 +776,7 @@ class CountControlConstructionToken(CompositeBaseToken):
         return [
             expression.left_operand.value[0]
             for expression in self.value[2].expressions
-            if isinstance(expression.left_operand.value[0], CellIdentifierToken)
+            if expression.left_operand is not None and isinstance(expression.left_operand.value[0], CellIdentifierToken)
         ]
 
     @property
@@ -784,7 +784,7 @@ class CountControlConstructionToken(CompositeBaseToken):
         return [
             expression
             for expression in self.value[2].expressions
-            if isinstance(expression.left_operand.value[0], LiteralToken)
+            if expression.left_operand is not None and isinstance(expression.left_operand.value[0], LiteralToken)
         ]
 
 
